@@ -152,8 +152,27 @@ def kexinit_edits(side, thorough):
     return out
 
 
-MP_OPS = ('add1', 'one', 'zero', 'pm1', 'p', 'neg', 'lead0', 'sub1')
+MP_OPS = ('add1', 'sub1', 'one', 'zero', 'half', 'dbl', 'pm1', 'p', 'big', 'neg', 'lead0')
 STR_OPS = ('flip0', 'fliplast', 'trunc', 'append', 'empty')
+LEN_OPS = ('len_dec', 'len_inc', 'len_zero', 'len_max')          # the uint32 length prefix of a string / mpint field
+NUM_OPS = ('zero', 'one', 'half', 'dec', 'inc', 'max')            # every uint32 of the group exchange request
+
+# group exchange requests an on-path party may substitute (whatever the server accepts: it validates nothing)
+GEX_REQS = [(512, 2048, 8192), (0, 2048, 8192), (1023, 2048, 8192), (768, 2048, 8192), (1024, 512, 8192),
+            (1024, 9000, 8192), (4096, 2048, 1024), (2048, 2048, 2048), (0, 0, 0), (1, 1, 1), (768, 768, 768),
+            (1024, 2048, 0xffffffff), (8192, 8192, 8192), (1024, 3000, 4096), (2048, 1024, 8192), (1024, 2048, 1023)]
+GEX_OLD_REQS = [0, 1, 512, 1024, 2047, 2049, 4096, 9000, 0xffffffff]
+
+
+def gex_request_specs():
+    """(old_form_client, spec): value-directed edits of the DH_GEX_REQUEST in both request forms"""
+    out = []
+    for old in (False, True):
+        for k in range(1 if old else 3):
+            out += [(old, ['kex', 'c', 0, 0, 'n%d_%s' % (k, op)]) for op in NUM_OPS]
+        out += [(old, ['kex', 'c', 0, 0, 'req', a, b, c]) for a, b, c in GEX_REQS[:None if not old else 5]]
+        out += [(old, ['kex', 'c', 0, 0, 'req_old', n]) for n in (GEX_OLD_REQS if old else GEX_OLD_REQS[:4])]
+    return out
 
 
 HOSTKEY_FIELDS = (('dh', 's', 0, 0), ('gex', 's', 1, 0), ('ecdh', 's', 0, 0), ('rsa', 's', 0, 0))
@@ -166,11 +185,11 @@ def kex_edits(fam, thorough):
             continue
         for j, kind in enumerate(kinds):
             if kind == 'mpint':
-                ops = MP_OPS if thorough else ('add1', 'one', 'pm1', 'p', 'neg', 'lead0')
+                ops = MP_OPS + LEN_OPS
             elif kind == 'raw':
-                ops = ('u32_0', 'u32_1', 'u32_2', 'to_old', 'trunc', 'append')
+                ops = ('to_old', 'trunc', 'append')          # the numeric edits come from gex_request_specs()
             else:
-                ops = STR_OPS if thorough else ('flip0', 'fliplast', 'trunc')
+                ops = (STR_OPS if thorough else ('flip0', 'fliplast', 'trunc')) + LEN_OPS
             out += [['kex', side, idx, j, op] for op in ops]
             if (fam, side, idx, j) in HOSTKEY_FIELDS:
                 out.append(['kex', side, idx, j, 'other_key'])
@@ -301,7 +320,13 @@ def make_edit(spec, fam, alg):
                 return None
             fk, enc = kinds[j], fields[j]
             new = None
-            if fk == 'mpint':
+            if op in LEN_OPS and fk != 'raw':
+                ln = int.from_bytes(enc[:4], 'big')
+                nl = {'len_dec': ln - 1, 'len_inc': ln + 1, 'len_zero': 0, 'len_max': 0xffffffff}[op]
+                if nl < 0 or nl == ln:
+                    return None
+                new = nl.to_bytes(4, 'big') + enc[4:]
+            elif fk == 'mpint':
                 v = W.Rd(enc).mpint()
                 p = group_prime(alg)
                 if fam == 'gex':
@@ -313,21 +338,29 @@ def make_edit(spec, fam, alg):
                             except W.Short:
                                 pass
                             break
-                nv = {'add1': v + 1, 'sub1': v - 1, 'one': 1, 'zero': 0, 'neg': -v, 'lead0': v,
+                nv = {'add1': v + 1, 'sub1': v - 1, 'one': 1, 'zero': 0, 'neg': -v, 'lead0': v, 'half': v // 2,
+                      'dbl': 2 * v, 'big': (v + p) if p else (v << 64),
                       'pm1': (p - 1) if p else None, 'p': p}.get(op)
                 if nv is None:
                     return None
                 new = W.mpint_enc(nv, lead=2 if op == 'lead0' else 0)
             elif fk == 'raw':
                 b = bytearray(enc)
-                if op.startswith('u32_'):
-                    k = int(op[4:])
+                if op[0] == 'n' and op[2:3] == '_':
+                    k = int(op[1])
                     if len(b) < 4 * k + 4:
                         return None
                     old = int.from_bytes(b[4 * k:4 * k + 4], 'big')
-                    nv = (4096 if old == 2048 else old ^ 1024) if k == 1 else old ^ 1
+                    nv = {'zero': 0, 'one': 1, 'half': old // 2, 'dec': old - 1, 'inc': old + 1,
+                          'max': 0xffffffff}[op[3:]]
+                    if nv == old or not 0 <= nv <= 0xffffffff:
+                        return None
                     b[4 * k:4 * k + 4] = nv.to_bytes(4, 'big')
                     new = bytes(b)
+                elif op == 'req':
+                    return W.frame(bytes([34]) + b''.join(int(x).to_bytes(4, 'big') for x in spec[5:8]))
+                elif op == 'req_old':
+                    return W.frame(bytes([30]) + int(spec[5]).to_bytes(4, 'big'))
                 elif op == 'to_old':
                     if len(b) != 12:
                         return None
@@ -577,20 +610,24 @@ def stage_sweep(ctx, rec, aead):
         if not thorough:
             allpos = [(side, wi, o) for side in ('c', 's') for wi, d in enumerate(writes[side]) for o in range(len(d))]
             byte_specs = [['byte', s_, wi, o, rng.choice([1, 0x80, 0xff, 0x20])] for s_, wi, o in rng.sample(allpos, min(len(allpos), 14))]
-        if fam == 'gex' and kex not in fam_done.get('gexold', ()):
-            specs.append(['gex_old'])
+        plan = [(False, sp) for sp in specs + byte_specs]
+        if fam == 'gex':
+            # the request in both forms first: these cases always go to Coq
+            plan = [(True, ['gex_old'])] + gex_request_specs() + plan
         mstalls = msess = 0
-        for spec in specs + byte_specs:
+        for old_form, spec in plan:
             if mstalls > 40 and mstalls * 3 > msess:      # circuit breaker: most sessions hang (cheap, but pointless)
                 ctx.count('sweep.breaker')
                 break
             gex_old = spec[0] == 'gex_old'
-            rec.gex_old = gex_old
+            force = fam == 'gex' and spec[0] == 'kex' and spec[1:4] == ['c', 0, 0]
+            rec.gex_old = old_form
             try:
                 r = sshutil.run(W.run_session(cfg, None if gex_old else make_edit(spec, fam, kex.encode()), rec), timeout=120)
             finally:
                 rec.gex_old = False
             nsess += 1
+            cfgdesc = {'kex': kex, 'gex_old': True} if old_form else {'kex': kex}
             if not gex_old and not r.mitm.applied:
                 ctx.count('sweep.noop')
                 continue
@@ -604,11 +641,12 @@ def stage_sweep(ctx, rec, aead):
             exact = (not gex_old) and is_exact(fam, spec)
             same = W.bound_part(vc) == W.bound_part(vs)
             ctx.note_case(('sweep', kex, tuple(map(str, spec))), nontrivial=True)
-            if len(sweep_cases) < (4000 if thorough else 700) and (exact or completed):
+            if (force or len(sweep_cases) < (4000 if thorough else 700)) and (exact or completed):
                 sweep_cases.append('(%s, %s, %s, %s)' % (coq_view(vc, 'c'), coq_diffs(vc, vs), cbool(completed), cbool(exact)))
                 sweep_meta.append((kex, spec, completed, same))
             # the bytes each side really hashed, under the edit
-            if len(hcases) < (2500 if thorough else 400) and (spec[0] != 'byte' or completed) and (thorough or spec[0] != 'kexinit' or rng.random() < 0.3):
+            if force or (len(hcases) < (2500 if thorough else 400) and (spec[0] != 'byte' or completed)
+                         and (thorough or spec[0] != 'kexinit' or rng.random() < 0.3)):
                 for who, v in (('c', vc), ('s', vs)):
                     hc = hash_cases(r, who, v)
                     if hc:
@@ -954,8 +992,9 @@ def replay(rp):
         rec = W.Recorder()
         rec.install()
         try:
-            rec.gex_old = bool(spec) and spec[0] == 'gex_old'
-            r = sshutil.run(W.run_session(sweep_cfg(kex), make_edit(spec, fam, kex.encode()) if spec and not rec.gex_old else None, rec))
+            rec.gex_old = bool(rp['cfg'].get('gex_old')) or (bool(spec) and spec[0] == 'gex_old')
+            noedit = not spec or spec[0] == 'gex_old'
+            r = sshutil.run(W.run_session(sweep_cfg(kex), None if noedit else make_edit(spec, fam, kex.encode()), rec))
         finally:
             rec.uninstall()
         judge(c, r, rp['cfg'], spec, aead, fam)
